@@ -30,7 +30,8 @@ def classLoop (ix : UInt64 → Nat) (a : Att) : List UInt64 → Att
     match a.buckets[i]? with
     | none => { a with fault := true, found := false }     -- out-of-bounds read: UB in C++
     | some b =>
-      if b != sentinel then { a with found := false }
+      -- a bucket holding this very id (a class registered several times) is not a collision
+      if b != sentinel && b != t then { a with found := false }
       else classLoop ix { a with buckets := a.buckets.set! i t } ts
 
 /-- one attempt: all classes, the outer loop keeps going after a collision -/
